@@ -112,8 +112,24 @@ func NewHTTPStoreCache(key []byte, store store.Store) *httpCache {
 
 // Get get http cache
 func (hc *httpCache) Get() (status Status, response *HTTPResponse) {
+	status, response, _ = hc.GetWithAge()
+	return
+}
+
+// GetWithAge get http cache and the age of the cached response,
+// the age is calculated in the same critical section as the lookup
+func (hc *httpCache) GetWithAge() (status Status, response *HTTPResponse, age int) {
 	hc.mu.Lock()
 	status, done, response := hc.get()
+	if status == StatusHit {
+		// 缓存在查询时有效，age不应大于缓存的有效期
+		// （时钟有可能在查询后刚好跳至下一秒）
+		v := nowUnix() - hc.createdAt
+		if max := hc.expiredAt - hc.createdAt; v > max {
+			v = max
+		}
+		age = int(v)
+	}
 	hc.mu.Unlock()
 	// 如果done不为空，表示需要等待确认当前请求状态
 	if done != nil {
@@ -122,7 +138,7 @@ func (hc *httpCache) Get() (status Status, response *HTTPResponse) {
 		// 完成后重新获取当前状态与响应
 		// 唤醒后缓存有可能已再次过期（并已由其它请求重新fetching），
 		// 因此需要在锁内重新判断，不能直接读取hc.status与hc.response
-		return hc.Get()
+		return hc.GetWithAge()
 	}
 	return
 }
